@@ -4,29 +4,10 @@ import (
 	"io"
 
 	"github.com/corazawaf/coraza/v3/debuglog"
-	"github.com/corazawaf/coraza/v3/experimental/plugins/plugintypes"
 	"github.com/corazawaf/coraza/v3/internal/corazawaf"
 	"github.com/corazawaf/coraza/v3/internal/seclang"
 	"github.com/corazawaf/coraza/v3/internal/vp"
 )
-
-var vpErrLogs int
-
-// audit writer that may fail
-type vpFailingWriter struct {
-	fail   bool
-	writes int
-}
-
-func (w *vpFailingWriter) Init(plugintypes.AuditLogConfig) error { return nil }
-func (w *vpFailingWriter) Write(plugintypes.AuditLog) error {
-	w.writes++
-	if w.fail {
-		return io.ErrUnexpectedEOF
-	}
-	return nil
-}
-func (w *vpFailingWriter) Close() error { return nil }
 
 // VpC20Faults: a transaction whose request body spills to a temporary file, with up to two
 // file-system calls failing (create, write, read, close, remove - chosen by the solver), an
